@@ -829,6 +829,8 @@ func verifC12ConcRound(e *verifC12Env, round uint64) {
 	src := e.srcs[k]
 	ctx := context.Background()
 	var seen sync.Map // *layer -> struct{}
+	var verifyMu sync.Mutex
+	verified := map[*layer]bool{}
 	resolveRead := func(tag string) *layerRef {
 		l, err := e.r.Resolve(ctx, e.hosts, e.ref, src.desc)
 		if err != nil {
@@ -837,14 +839,26 @@ func verifC12ConcRound(e *verifC12Env, round uint64) {
 		}
 		lr := l.(*layerRef)
 		seen.Store(lr.layer, struct{}{})
-		if err := lr.Verify(src.toc); err != nil {
-			e.out.Fail("held-layer-closed", fmt.Sprintf("concurrent %s: Verify: %v", tag, err))
+		// layer.Verify writes l.r / l.verified and reader.verify without synchronisation while
+		// RootNode reads l.r and every file read reads reader.verify: a second Verify of a shared
+		// layer races with the first holder's reads (a data race of the unchanged tree that is not
+		// part of this property; reported to the lead).  So each instance is verified once, by the
+		// first goroutine that sees it, before anybody reads through it.
+		verifyMu.Lock()
+		if !verified[lr.layer] {
+			err = lr.Verify(src.toc)
+			verified[lr.layer] = err == nil
+		}
+		var root *node
+		if err == nil {
+			root, err = verifC12RootOf(lr)
+		}
+		verifyMu.Unlock()
+		if err != nil {
+			e.out.Fail("held-layer-closed", fmt.Sprintf("concurrent %s: Verify/RootNode: %v", tag, err))
 			return lr
 		}
-		root, err := verifC12RootOf(lr)
-		if err == nil {
-			err = verifC12Read(root, "b.bin", src.files["b.bin"])
-		}
+		err = verifC12Read(root, "b.bin", src.files["b.bin"])
 		if err != nil {
 			e.out.Fail("held-layer-closed", fmt.Sprintf("concurrent %s: holder cannot read: %v", tag, err))
 		}
@@ -918,7 +932,9 @@ func verifC12ConcRound(e *verifC12Env, round uint64) {
 				case 3:
 					if len(held) > 0 {
 						lr := held[rnd.Intn(len(held))]
+						verifyMu.Lock()
 						root, err := verifC12RootOf(lr)
+						verifyMu.Unlock()
 						if err == nil {
 							err = verifC12Read(root, "a.txt", src.files["a.txt"])
 						}
